@@ -103,6 +103,17 @@ CHECKS['C01'] = {
     'note': 'Trusted: pyvc; lxml (A6); strings outside the transcription pool are not decided; coordinate string codec is bounded only.',
 }
 
+CHECKS['C08'] = {
+    'level': 'other',
+    'technique': 'relational (non-interference) obligations generated by symbolic execution of the real PageDecoder.process_page/decode_line and discharged by z3 + syntactic frame scan + bounded page histories with a recording stub decoder',
+    'text': ('PROVED: every mutable attribute the line loop reads is reset before the loop (value at the loop head independent of the entry state), and one '
+             'loop iteration computes transcription and carried LM state from the line and the carried state only (counters and clock do not flow into outputs or '
+             'branch conditions) - hence by induction a page result is a function of the page and the immutable configuration. BOUNDED: all page histories of '
+             'length <= 3 x carry on/off x 5 thresholds equal the solo result. The multi-process schedule clause is NOT decided (no thread/process reasoning in this family).'),
+    'note': ('Trusted: pyvc; decoder / LM / logits preparation are opaque pure functions (A6; frame scan shows LMWrapper assigns no attribute); module-level RNG '
+             'tie-breaks in layout stages are listed in the evidence, not proved absent; Pool.starmap scheduling outside the technique.'),
+}
+
 NOT_APPLICABLE = {
     'C20': ('equality up to round-off of float tensors produced by torch C++ kernels through module-resident caches across calls: no contract '
             'within reach can state it over reals, no finite domain makes a bounded check exhaustive; a random differential test would be a different technique (DESIGN.md §6)'),
